@@ -73,7 +73,7 @@ func generateArgs(args []string, ev *eval.Evaler, p np.Path, cfg Config) ([]RawI
 		ns, _ := eval.SplitIncompleteQNameNs(qname)
 		var items []RawItem
 		eachVariableInNs(ev, p, ns, func(varname string) {
-			items = append(items, noQuoteItem(sigil+parse.QuoteVariableName(ns+varname)))
+			items = append(items, noQuoteItem(quoteLHSName(sigil, ns+varname)))
 		})
 		return items, nil
 	case "del":
@@ -81,7 +81,7 @@ func generateArgs(args []string, ev *eval.Evaler, p np.Path, cfg Config) ([]RawI
 		// offer builtin variables.
 		var items []RawItem
 		addItem := func(varname string) {
-			items = append(items, noQuoteItem(parse.QuoteVariableName(varname)))
+			items = append(items, noQuoteItem(quoteLHSName("", varname)))
 		}
 		ev.Global().IterateKeysString(addItem)
 		eachDefinedVariable(p[len(p)-1], p[0].Range().From, addItem)
@@ -89,6 +89,19 @@ func generateArgs(args []string, ev *eval.Evaler, p np.Path, cfg Config) ([]RawI
 	}
 
 	return cfg.ArgGenerator(args)
+}
+
+// Quotes a variable name, with an optional sigil, for use as an assignment
+// target. A target must be a single string literal: the sigil goes inside the
+// quotes if the name needs quoting, and a leading ~ (which would start a tilde
+// expression in a bareword) forces quoting.
+func quoteLHSName(sigil, qname string) string {
+	quoted := parse.QuoteVariableName(qname)
+	if quoted == qname && !strings.HasPrefix(qname, "~") {
+		return sigil + qname
+	}
+	whole, _ := parse.QuoteAs(sigil+qname, parse.SingleQuoted)
+	return whole
 }
 
 func generateExternalCommands(seed string) ([]RawItem, error) {
